@@ -282,20 +282,21 @@ def spec_split(text):
 
 
 def header_vroot(case):
-    """(vt, canonical?) — the virtual root the header designates as the traverser reads it; canonical = the header
-    is the virtual root's own path ('/' + names joined by '/', UTF-8) with optional trailing slashes, admissible names"""
+    """(vt, decodable?, canonical spelling?) — the virtual root the header designates, read the way the traverser reads it
+    (UTF-8, split_path_info normalisation).  Every decodable header is in the property's domain; `canonical spelling`
+    ('/' + names joined by '/', optional trailing slashes) is recorded for the distribution only."""
     v = case.get('vroot')
     if v is None:
-        return None, True
+        return None, True, True
     t = utf8(v)
     if t is None:
-        return None, False
+        return None, False, False
     vt = spec_split(t)
     if not vt:
-        canon = set(t) <= {'/'}                      # '', '/', '//' : the root
+        spelled = set(t) <= {'/'}
     else:
-        canon = all(admissible(n) for n in vt) and t.rstrip('/') == '/' + '/'.join(vt)
-    return vt, canon
+        spelled = t.rstrip('/') == '/' + '/'.join(vt)
+    return vt, True, spelled
 
 
 def find_path(case):
@@ -326,8 +327,8 @@ def expected(case, extra):
         exp['rpt'] = [''] + pos + els
         for f in ('fas', 'fat', 'frs', 'frt'):
             exp[f] = {'ok': pos}
-        vt, canon = header_vroot(case)
-        info['vt'], info['canon'] = vt, canon
+        vt, canon, spelled = header_vroot(case)
+        info['vt'], info['canon'], info['spelled'] = vt, canon, spelled
         if canon:
             ins = vt is not None and pos[:len(vt)] == vt
             info['inside'] = ins
@@ -338,7 +339,7 @@ def expected(case, extra):
             if vt is None or ins:
                 exp['back'] = {'ok': {'context': pos, 'view_name': '', 'subpath': []}}
         else:
-            info['outside_vroot'] = 'header is not the canonical path of a virtual root'
+            info['outside_vroot'] = 'header is not UTF-8 (ResourceURL and the traverser raise UnicodeDecodeError)'
         return exp, info
     if mode == 'find':
         if 'path' in case:
@@ -372,17 +373,13 @@ def compare(case, got, exp, info):
         return []
     if case['mode'] == 'res':
         if 'ok' not in got:
-            return ['*']
+            return [] if (got == {'err': 'unicodedecode'} and not info.get('canon')) else ['*']
         o = got['ok']
         bad = []
         for f, want in exp.items():
             have = back_subset(o[f]) if f == 'back' else o[f]
             if have != want:
                 bad.append(f)
-        # IResourceURL: the *_tuple attributes describe the same paths as the strings (names quoted and joined)
-        for ft, fs in (('physt', 'phys'), ('virtt', 'virt')):
-            if ('/'.join(q(x) for x in o[ft]) or '/') != o[fs]:
-                bad.append(ft)
         return bad
     if case['mode'] == 'find':
         return [] if got == exp else ['find']
@@ -406,12 +403,6 @@ def classify(case, extra, got, exp, info, bad):
         if rel and scheme_like(q(rel[0])) and set(rest) & {'frs', 'frt'}:
             fid.add('F-C07c')
             rest = [f for f in rest if f not in ('frs', 'frt')]
-        # F-C07b: the header (raw names) is compared with the *quoted* physical path; a virtual root with a name
-        # that needs quoting is therefore not recognised (or a differently named one is)
-        vt = info.get('vt')
-        if info.get('canon') and vt and any(needs_quoting(n) for n in vt) and set(rest) & {'virt', 'url', 'back'}:
-            fid.add('F-C07b')
-            rest = [f for f in rest if f not in ('virt', 'url', 'back')]
         if rest or not fid:
             return None
         return sorted(fid)[0]
@@ -476,6 +467,8 @@ def decode_model(case, mo):
     if 'error' in mo:
         return {'err': 'driver:' + str(mo['error'])}, None
     mode = case['mode']
+    if mode == 'res' and 'err' in mo:
+        return {'err': mo['err']}, None
     if mode == 'res':
         out = {}
         for f in ('rpt', 'physt', 'virtt'):
@@ -611,14 +604,14 @@ def gen_vroot(rng, tree, pos):
     elif r < 0.86 and pos:                                 # the quoted spelling of an ancestor's path
         vt = pos[:rng.randint(1, len(pos))]
         v = '/' + '/'.join(q(n) for n in vt)
-    elif r < 0.93:                                         # some other resource of the tree / a missing one
+    elif r < 0.91:                                         # some other resource of the tree / a missing one
         other = rng.choice(positions(tree))
         if rng.random() < 0.3:
             other = other + [gen_name(rng)]
         v = '/' + '/'.join(other)
     elif r < 0.98 and pos:                                 # not the canonical spelling
         vt = pos[:rng.randint(1, len(pos))]
-        v = rng.choice(['', '/', '//', '/./']) + rng.choice(['/', '//', '/./', '/zz/../']).join(vt)
+        v = rng.choice(['', '/', '//', '/./', '/../', '/zz/../']) + rng.choice(['/', '//', '/./', '/zz/../']).join(vt) + rng.choice(['', '', '/.', '/x/..', '/x/../'])
     else:
         return '/' + rng.choice(SIMPLE) + rng.choice(BAD_UTF8)
     v = to_wsgi(v)
@@ -699,8 +692,7 @@ def check_case(case, model_reply=None):
         shown = got
         if case['mode'] == 'res' and 'ok' in got:
             shown = {f: got['ok'][f] for f in bad if f in got['ok']}
-        viol = {'case': case, 'impl': shown, 'expected': ({f: (exp[f] if f in exp else 'this tuple, names quoted and joined by "/", is the path string') for f in bad}
-                             if case['mode'] == 'res' and bad != ['*'] else exp),
+        viol = {'case': case, 'impl': shown, 'expected': ({f: exp[f] for f in bad if f in exp} if case['mode'] == 'res' and bad != ['*'] else exp),
                 'detail': 'the implementation does not give what the property demands in: %s' % bad}
         f = classify(case, extra, got, exp, info, bad)
         if f:
@@ -757,7 +749,7 @@ def vroot_kind(case, info):
     vt = info.get('vt')
     if vt is None:
         return 'undecodable'
-    k = 'canonical' if info.get('canon') else 'noncanonical'
+    k = 'canonical' if info.get('spelled') else 'noncanonical'
     if not vt:
         return 'root-' + k
     pos = case['pos']
@@ -812,10 +804,10 @@ WITNESSES = [
     # F-C07a (fixed in /repo: f13072b) — virtual root /one, resource /one2/x: must NOT be trimmed
     {'mode': 'res', 'tree': T_(('one', LEAFN), ('one2', T_(('x', LEAFN)))), 'pos': ['one2', 'x'], 'anc': 0, 'vroot': '/one',
      'els': [], 'host': None, 'script': '', 'rootname': None},
-    # F-C07b — virtual root /a b (needs quoting) over /a b/c: not trimmed, and the URL does not traverse back
+    # F-C07b (fixed in /repo: 8fdc2b2) — virtual root /a b (needs quoting) over /a b/c: trimmed, traverses back
     {'mode': 'res', 'tree': T_(('a b', T_(('c', LEAFN)))), 'pos': ['a b', 'c'], 'anc': 0, 'vroot': '/a b',
      'els': [], 'host': None, 'script': '', 'rootname': None},
-    # F-C07b, the other direction — virtual root /%2541 (another resource) trims the resource /%41/x
+    # F-C07b (fixed), the other direction — virtual root /%2541 (another resource) must not trim the resource /%41/x
     {'mode': 'res', 'tree': T_(('%41', T_(('x', LEAFN))), ('%2541', LEAFN)), 'pos': ['%41', 'x'], 'anc': 0, 'vroot': '/%2541',
      'els': [], 'host': None, 'script': '', 'rootname': None},
     # F-C07c — relative tuple / string lookup whose first name looks like a URL scheme
@@ -872,7 +864,7 @@ def exhaustive_cases(full):
     trees = list(small_trees(names, EX_SUB if full else EX_SUB))
     if not full:
         trees = trees[::5]
-    vroots = [None, '/', '/a', '/ab', '/a b', '/a%20b', '/a/', '/a/a', '/a/ab', '/ab/a', '/a b/a', '/zz']
+    vroots = [None, '/', '/a', '/ab', '/a b', '/a%20b', '/a/', '/a/a', '/a/ab', '/ab/a', '/a b/a', '/zz', 'a', '/a//ab/../', '/ab/../a b/.']
     out = []
     for tree in trees:
         for pos in positions(tree):
@@ -974,8 +966,8 @@ def run(ctx):
             viol.append(v)
     dist['exhaustive_scope'] = {'cases': len(ex), 'known_finding_cases': ex_known,
                                 'what': 'trees of depth <= 2 (root children among %s: absent / leaf / container with any subset of %s) x every '
-                                        'resource x 12 virtual-root headers (none, /, every first-level name raw, one quoted, trailing slash, '
-                                        'second-level, missing)%s' % (EX_NAMES, EX_SUB, '' if ctx.tier == 'thorough' else ' — every 5th tree in quick')}
+                                        'resource x 15 virtual-root headers (none, /, every first-level name raw, one quoted, trailing slash, '
+                                        'second-level, missing, no leading slash, with //, ., ..)%s' % (EX_NAMES, EX_SUB, '' if ctx.tier == 'thorough' else ' — every 5th tree in quick')}
     notes = []
     for w in WITNESSES:
         got, extra, m, v, info = check_case(w)
@@ -993,8 +985,8 @@ def run(ctx):
             'distribution': dist, 'notes': notes,
             'assumptions': ['resource names are Python str without lone surrogates; the root is named None or ""',
                             'children are found by dict lookup (==/hash of str); the model uses list lookup by equality',
-                            'a virtual-root header is in the property\'s domain when it is the canonical path of the virtual root '
-                            '("/" + names joined by "/", UTF-8, optional trailing slashes); other spellings are run for correspondence only',
+                            'every UTF-8 virtual-root header is in the property\'s domain; the virtual root it designates is read as the traverser '
+                            'reads it (split_path_info normalisation: no leading slash, //, ., .., trailing slashes all allowed)',
                             'the WSGI server percent-decodes the request path into PATH_INFO (urllib.parse.unquote_to_bytes, latin-1)'],
             'trusted_base': ['Python codecs (utf-8, latin-1, ascii), str.split/rstrip/startswith/slicing, urllib.parse.quote / unquote_to_bytes, '
                              'WebOb Request (blank, path_info, application_url), functools.lru_cache — tied only by this run',
